@@ -7,6 +7,28 @@ ROOT = os.path.dirname(os.path.dirname(os.path.abspath(__file__)))
 ALL = [f"C{k:02d}" for k in range(1, 21)]
 
 CLAIMED = {
+    "C08": dict(
+        text=("Coarsen.tla: TLC checks for ALL bin tables (<=2 chromosomes, length<=4/5, all compositions) x factors 2..4/6 that the "
+              "implementation's coarse table = the declared grouping and that every old bin is re-binned into its group by the path "
+              "the code takes (start coordinate div new size when the NEW table has an inferred fixed size, else lookup) - this "
+              "needs the repaired bin-size inference (F1); for ALL stores on tables of <=3/4 bins x factors x chunk sizes that the "
+              "pruned row partition never splits a coarse row and that span-wise aggregation = block aggregation, sorted, totals "
+              "preserved. Real coarsen_cooler / `cooler coarsen` runs on ten table shapes x random stores x k (incl. k > bins) x "
+              "chunk sizes x 1-3 processes x 1-2 value columns with sum/max/min x integer and float64 (dyadic) values x root/nested "
+              "destination; chains k1 then k2 vs k1*k2 and coarsen(merge) vs merge(coarsened); TLC validates table, pixels, total, "
+              "ValidCSR, and the recorded span edges against the model."),
+        design_ref="DESIGN.md section 6 C08, section 4.9", note="Trusted: TLC, structural projection; float columns restricted to multiples of 1/4 (exact sums).",
+        technique="TLA+ model checking (TLC) of the coarsening algorithm + TLC trace validation of real coarsenings", category="model_checking"),
+    "C09": dict(
+        text=("Coarsen.tla also transcribes get_multiplier_sequence: TLC checks for ALL resolution sets within 1..8/12 x base subsets "
+              "that every predecessor divides its target and that refusal coincides with non-derivability. Real zoomify_cooler / "
+              "`cooler zoomify` runs on four fixed-width bases x ladders in any order (with/without the base, mixed predecessors "
+              "2-3-6-12, non-derivable members) x one or two base coolers x chunk sizes x workers; EVERY level is read back and "
+              "compared by TLC with DIRECT coarsening of the base by the ratio of resolutions (CoarsenBy), the layout with exactly "
+              "the requested and base resolutions, multires recognition, ValidCSR per level; the CLI resolution-spec spellings "
+              "(N, B, 4DN, <k>N, <k>B, lists) are expanded by the specification and compared with the levels written."),
+        design_ref="DESIGN.md section 6 C09, section 4.9", note="Trusted: TLC, structural projection. Bases are fixed-width coolers.",
+        technique="TLA+ model checking (TLC) of the predecessor search + TLC trace validation of real multires files", category="model_checking"),
     "C17": dict(
         text=("create_scool is, in terms of the store model, root tables + one append-mode creation per cell (Cells.tla, Store.tla): "
               "Store's frame condition (an append-mode creation changes only the link it names; MC_Store) is what lets every earlier "
